@@ -172,6 +172,59 @@ func genSets(r *vlib.Rand, df int, kind string, nmax int) (L, R []ldiffh.El) {
 	return
 }
 
+// oracle compares a result (hex ids) with the set difference computed directly from the two element lists
+func oracle(s spec, res result) string {
+	lm, rm := map[string]int{}, map[string]int{}
+	for _, e := range s.L {
+		lm[hex.EncodeToString([]byte(e.ID()))] = e.Head
+	}
+	for _, e := range s.R {
+		rm[hex.EncodeToString([]byte(e.ID()))] = e.Head
+	}
+	exp := map[string]map[string]bool{"new": {}, "changed": {}, "theirs": {}, "removed": {}}
+	for id, h := range lm {
+		if rh, ok := rm[id]; !ok {
+			exp["removed"][id] = true
+		} else if rh != h {
+			if s.Variant == "compare" && rh > h {
+				exp["theirs"][id] = true
+			} else {
+				exp["changed"][id] = true
+			}
+		}
+	}
+	for id := range rm {
+		if _, ok := lm[id]; !ok {
+			exp["new"][id] = true
+		}
+	}
+	chk := func(name string, got []string) string {
+		seen := map[string]bool{}
+		for _, g := range got {
+			if seen[g] {
+				return name + ": id reported twice"
+			}
+			seen[g] = true
+			if !exp[name][g] {
+				return name + ": unexpected id " + g
+			}
+		}
+		if len(seen) != len(exp[name]) {
+			return fmt.Sprintf("%s: %d ids reported, %d expected", name, len(seen), len(exp[name]))
+		}
+		return ""
+	}
+	for _, p := range []struct {
+		n string
+		g []string
+	}{{"new", res.New}, {"changed", res.Changed}, {"theirs", res.Theirs}, {"removed", res.Removed}} {
+		if m := chk(p.n, p.g); m != "" {
+			return m
+		}
+	}
+	return ""
+}
+
 func main() {
 	vlib.ServeChild(childHandler)
 	o := vlib.ParseFlags()
@@ -293,8 +346,48 @@ func main() {
 		s := spec{Df: 32, Th: 256, L: L, R: R, Variant: []string{"diff", "compare"}[r.Intn(2)], Wire: r.Bool(), Shape: "prod_" + kind}
 		do(s)
 	}
+	// large pairs: the implementation's result is compared with the set difference computed directly (no model run)
+	nl := 2
+	if o.Tier == "thorough" {
+		nl = 16
+	}
+	for k := 0; k < nl*o.Budget; k++ {
+		if fatal >= 8 {
+			break
+		}
+		size := 2000 + r.Intn(3000)
+		if o.Tier == "thorough" {
+			size = 5000 + r.Intn(25000)
+		}
+		df, th := 32, 256
+		if k%2 == 1 {
+			df, th = ldiffh.Dfs[r.Intn(len(ldiffh.Dfs))], []int{8, 64, 256}[r.Intn(3)]
+		}
+		kind := []string{"uniform", "deep", "mixed"}[r.Intn(3)]
+		L, R := genSets(r, df, kind, size)
+		s := spec{Df: df, Th: th, L: L, R: R, Variant: []string{"diff", "compare"}[k%2], Wire: k%3 == 0, Shape: "large_" + kind}
+		req, _ := json.Marshal(s)
+		respB, fail := child.Call(req, 120*time.Second)
+		var res result
+		if fail == "" && json.Unmarshal(respB, &res) != nil {
+			fail = "crash: bad response"
+		}
+		term := fmt.Sprintf("(ICLarge %d %d)%%uint63", len(L), len(R))
+		desc := map[string]interface{}{"large": true, "df": df, "th": th, "nL": len(L), "nR": len(R), "variant": s.Variant, "wire": s.Wire, "shape": kind, "fail": fail}
+		idx := w.Add(term, desc, fmt.Sprintf("large-%d-%d-%d", k, len(L), len(R)), true)
+		w.Stat("large_oracle_only")
+		if fail != "" || res.Panic != "" || res.Err != "" {
+			fatal++
+			w.Violation(idx, "c07-crash", "Diff on a large pair crashed, hung or failed: "+fail+res.Panic+res.Err, desc)
+			continue
+		}
+		if msg := oracle(s, res); msg != "" {
+			w.Violation(idx, "c07-large-wrong", msg, desc)
+		}
+	}
 	w.Finish("random pairs of head indexes: df in {2,3,4,5,7,16,32,33}, th in {1,2,3,8}, hash shapes uniform / deep bucket / narrow window / range boundaries / colliding hashes / mixed (ids placed through the xxhash64 inverse), "+
 		"R derived from L by add / remove / head change; both Diff and CompareDiff; 1 in 4 through NewRemoteDiff+protobuf+HandleRangeRequest; plus production parameters (32,256) with 300-600 elements; "+
+		"plus a few LARGE pairs (quick 2000-5000, thorough 5000-30000 elements) whose result is compared with the directly computed set difference only (no model run: stat large_oracle_only); "+
 		"non-trivial = at least 2 elements overall; distinct by (params, variant, wire, both contents)",
 		samples, nil)
 }
